@@ -29,20 +29,32 @@ Proof.
     apply Qeq_bool_iff in E. exfalso. exact (D j i Hj Hi Hne E).
 Qed.
 
+Lemma log_axis_distinct n k : log_axis xlg n k -> distinct xex n k.
+Proof.
+  intros (xs & (_ & S & P) & _ & -> & E) i j Hi Hj Hne. rewrite !E. unfold xex, xlg.
+  rewrite !Qabs_pos by (apply Qlt_le_weak, P; auto).
+  destruct (Nat.lt_ge_cases i j) as [H|H].
+  - assert (nth i xs 0 < nth j xs 0) by (apply S; lia). lra.
+  - assert (nth j xs 0 < nth i xs 0) by (apply S; lia). lra.
+Qed.
+
 Lemma exec_laws : oracle_laws Q xlg xex xadd xinterp1 xinterp2 xinterp3 xinterpq.
 Proof.
   constructor.
   - intros v Hv. unfold xex, xlg. apply Qabs_pos. lra.
   - intros a b. unfold xex, xadd. apply Qabs_Qmult.
   - intros a. unfold xex. apply Qabs_nonneg.
-  - intros n k v i D Hi. unfold xinterp1. rewrite hit_knot by auto. reflexivity.
+  - intros n k v i D Hi. unfold xinterp1. rewrite hit_knot by auto using log_axis_distinct. reflexivity.
   - intros nx ny kx ky v i j Dx Dy Hi Hj. unfold xinterp2. rewrite !hit_knot by auto. reflexivity.
   - intros nx ny nz kx ky kz v i j k Dx Dy Dz Hi Hj Hk. unfold xinterp3. rewrite !hit_knot by auto. reflexivity.
-  - intros n k v i D Hi. unfold xinterpq.
+  - intros n k v i _ D Hi. unfold xinterpq.
     rewrite (find_idx_spec n _ i); auto; try reflexivity.
     + apply Qeq_bool_iff. reflexivity.
     + intros j Hj Hne. destruct (Qeq_bool (k j) (k i)) eqn:E; auto.
-      apply Qeq_bool_iff in E. exfalso. exact (D j i Hj Hi Hne E).
+      apply Qeq_bool_iff in E. exfalso.
+      destruct (Nat.lt_ge_cases i j) as [H|H].
+      * assert (k i < k j) by (apply D; lia). lra.
+      * assert (k j < k i) by (apply D; lia). lra.
 Qed.
 
 (* witnesses for the non-vacuity example of Properties/C07.v *)
